@@ -44,6 +44,7 @@ inductive SOp where
   | ext (typ contents : Bytes)
   | sleep (secs : Nat)
   | sleepMs (ms : Nat)
+  | phase (ms : Nat)
   | verifyKeys
   | signerSign (i : Nat) (algo : Bytes)
   | unsupported
@@ -65,6 +66,7 @@ def parseSOp (e : String) : Option SOp :=
   | ["x", t, c] => do pure (.ext (← ofHex t) (← ofHex c))
   | ["z", n] => do pure (.sleep (← n.toNat?))
   | ["y", n] => do pure (.sleepMs (← n.toNat?))
+  | ["p", n] => do pure (.phase (← n.toNat?))
   | ["V"] => some .verifyKeys
   | ["G", i, a] => do pure (.signerSign (← i.toNat?) (← ofHex a))
   | ["au"] => some .unsupported
@@ -83,6 +85,7 @@ def toOp (ids : List Ident) : SOp → Option Op
   | .ext t c => some (.extension t c)
   | .sleep _ => none
   | .sleepMs _ => none
+  | .phase _ => none
   | .verifyKeys => none
   | .signerSign .. => none
   | .unsupported => some (.add ⟨[], false, [], 0, false, 0⟩)
@@ -100,6 +103,7 @@ def toCOp (ids : List Ident) : SOp → Option COp
   | .ext t c => some (.extension t c)
   | .sleep _ => none
   | .sleepMs _ => none
+  | .phase _ => none
   | .verifyKeys => none
   | .signerSign .. => none
   | .unsupported => do pure (.add (← ids[0]?) true [] 0 false [])
@@ -119,6 +123,10 @@ def runSeq (ids : List Ident) (wire : Bool) : KR → Int → List SOp → Option
     match op with
     | .sleep n => (runSeq ids wire r (t + n * tps + 1) rest).map fun (r', o) => (r', "z" :: o)
     | .sleepMs n => (runSeq ids wire r (t + n * (tps / 1000) + 1) rest).map fun (r', o) => (r', "z" :: o)
+    | .phase _ =>
+      -- wait for a phase of the wall-clock second: the outcome must not depend on it (no model time passes;
+      -- the generator only places it where no finite-lifetime key exists yet)
+      (runSeq ids wire r (t + 1) rest).map fun (r', o) => (r', "z" :: o)
     | .verifyKeys =>
       -- List, then Sign(k, data) + k.Verify for every listed *Key
       let (r', res) := if wire then wireStep ids r t .list else r.step t .list
